@@ -132,7 +132,7 @@ func (r *aggRun) exec(op sim.Op, crashK int) (fired bool, err error) {
 		time.Sleep(time.Duration(ms) * time.Millisecond)
 		return false, nil
 	case "da":
-		n.DAOf().SubmitScript = append(n.DAOf().SubmitScript, sim.SubmitOutcome{Kind: sim.SubmitKind(op.A % 12), N: int(op.B), Advance: op.C%2 == 1})
+		n.DAOf().SubmitScript = append(n.DAOf().SubmitScript, sim.SubmitOutcome{Kind: sim.SubmitKind(op.A % 14), N: int(op.B), Advance: op.C%2 == 1})
 		return false, nil
 	case "daadv":
 		n.DAOf().Advance(1)
